@@ -137,6 +137,11 @@ structure DocKind where
   kind : String
   /-- reading: a name that is not documented may be given by its first `abbr` characters -/
   abbr : Option Nat
+  /-- the property a text given WITHOUT a name goes to (none: a text without a name is refused) -/
+  autoText : Option Str := none
+  /-- the property a colour value given without a name goes to; whether line attributes given without a name are taken -/
+  autoColour : Option Str := none
+  autoAttr : Bool := false
   props : List DocProp
   deriving Repr
 
@@ -146,7 +151,7 @@ def dp (listed : String) (names : List String) (ty : PTy) : DocProp := ⟨str li
 def fltMax : Fl := ⟨16777215, 104⟩
 
 def docs : List DocKind := [
-  { kind := "axis", abbr := some 3, props := [
+  { kind := "axis", abbr := some 3, autoText := some (str "title"), props := [
       dp "title" ["title"] .string,
       dp "begin" ["begin"] (.scalar 'd'),
       dp "end" ["end"] (.scalar 'd'),
@@ -157,7 +162,7 @@ def docs : List DocKind := [
       dp "decimals" ["dec", "decimals"] (.scalar 'y'),
       dp "lpos" ["lpos", "labelpos", "label position"] .firstChar,
       dp "tpos" ["tpos", "titlepos", "title position"] .firstChar] },
-  { kind := "line", abbr := none, props := [
+  { kind := "line", abbr := none, autoColour := some (str "color"), autoAttr := true, props := [
       dp "color" ["color"] .colour,
       dp "x1" ["x1"] (.scalar 'f'),
       dp "x2" ["x2"] (.scalar 'f'),
@@ -167,7 +172,7 @@ def docs : List DocKind := [
       dp "style" ["style"] (.ranged 0 5),
       dp "symbol" ["symbol"] (.ranged 0 8),
       dp "size" ["size"] (.ranged 0 20)] },
-  { kind := "text", abbr := none, props := [
+  { kind := "text", abbr := none, autoText := some (str "value"), autoColour := some (str "color"), props := [
       dp "color" ["color"] .colour,
       dp "pos" ["pos"] (.point ⟨0, 0⟩ ⟨1, 0⟩),
       dp "pos" ["x"] .pointX,
@@ -177,7 +182,7 @@ def docs : List DocKind := [
       dp "angle" ["angle"] (.scalar 'd'),
       dp "value" ["value"] .string,
       dp "font" ["font"] .string] },
-  { kind := "graph", abbr := some 2, props := [
+  { kind := "graph", abbr := some 2, autoColour := some (str "foreground"), props := [
       dp "axes" ["axes"] .string,
       dp "worlds" ["worlds"] .string,
       dp "foreground" ["fg", "foreground"] .colour,
@@ -188,7 +193,7 @@ def docs : List DocKind := [
       dp "align" ["align", "alignment"] .alignFlags,
       dp "clip" ["clip", "clipping"] .clipAxes,
       dp "lpos" ["lpos"] (.scalar 'c')] },
-  { kind := "world", abbr := some 3, props := [
+  { kind := "world", abbr := some 3, autoText := some (str "alias"), autoColour := some (str "color"), autoAttr := true, props := [
       dp "color" ["color", "colour"] .colour,
       dp "cycles" ["cyc", "cycles"] (.scalar 'u'),
       dp "width" ["width"] (.ranged 0 10),
